@@ -15,6 +15,10 @@ def H(pkg, files, func, reach=(), quick=None, thorough=None, **kw):
     d.update(kw)
     return d
 
+_G = ["c08.go", "common.go"]
+_S = ["c06.go", "refshaper.go", "common.go"]
+_S7 = ["c07.go", "c06.go", "refshaper.go", "common.go"]
+
 CHECKS["C11"] = {
     "harnesses": [
         H("glyf", "c11.go", "VerifH_C11_spec", ["accepted", "points"],
@@ -197,8 +201,12 @@ CHECKS["C02"] = {
         H("os2", "c12.go", "VerifH_C12_os2_bytes", ["accepted"], quick={"timeout": 280}),
         H("post", "c12.go", "VerifH_C12_post_bytes", ["accepted"], quick={"timeout": 200}),
         H("name", "c14.go", "VerifH_C14_name_bytes", ["accepted"], quick={"params": {"maxextra": 2, "maxrec": 1}, "timeout": 280}, thorough={"params": {"maxextra": 8, "maxrec": 2}, "timeout": 2400}),
+        H("opentype/coverage", "c08.go", "VerifH_C08_coverage_bytes", ["accepted"], quick={"params": {"maxlen": 8}, "timeout": 280}, thorough={"params": {"maxlen": 16}, "timeout": 2400}),
+        H("opentype/classdef", "c08.go", "VerifH_C08_classdef_bytes", ["accepted"], quick={"params": {"maxlen": 8}, "timeout": 280}, thorough={"params": {"maxlen": 16}, "timeout": 2400}),
+        H("opentype/gdef", "c08.go", "VerifH_C02_gdef", ["accepted"], quick={"params": {"maxwords": 2}, "timeout": 280, "shards": 3}, thorough={"params": {"maxwords": 5}, "timeout": 2400, "shards": 6}),
+        H("opentype/gtab", _S7, "VerifH_C07_reader", ["accepted"], quick={"params": {"maxwords": 3}, "timeout": 280, "shards": 6}, thorough={"params": {"maxwords": 8}, "timeout": 2400, "shards": 6}),
     ],
-    "bounds": {"quick": "arbitrary bytes per decoder, every implicit runtime check is an obligation: header.Read 12+16*1(+4) bytes; kern.Read <=2 subtables x <=1 pair; cmap.Decode <=1 encoding record + 10..18 byte body, then Get/Lookup/CodeRange/GetBest; cmap formats 0/6/12; glyf.Decode 16 bytes split into 2 glyphs (both loca formats) + SimpleGlyph.Decode; hmtx 36+8; head 54; maxp <=32; OS/2 68..100; post 32..36; name 6+12+2; CFF: readIndex <=8 bytes, readCharset <=8, readFDSelect <=9, readPrivate with arbitrary int32 (size, offset) over an 8-byte file under a 1 MiB allocation obligation, DICT <=2 bytes, Type 2 charstrings <=3 bytes",
+    "bounds": {"quick": "arbitrary bytes per decoder, every implicit runtime check is an obligation: header.Read 12+16*1(+4) bytes; kern.Read <=2 subtables x <=1 pair; cmap.Decode <=1 encoding record + 10..18 byte body, then Get/Lookup/CodeRange/GetBest; cmap formats 0/6/12; glyf.Decode 16 bytes split into 2 glyphs (both loca formats) + SimpleGlyph.Decode; hmtx 36+8; head 54; maxp <=32; OS/2 68..100; post 32..36; name 6+12+2; CFF: readIndex <=8 bytes, readCharset <=8, readFDSelect <=9, readPrivate with arbitrary int32 (size, offset) over an 8-byte file under a 1 MiB allocation obligation, coverage and class definition tables <=12 bytes, GDEF tables 12..16 bytes, GSUB subtable readers 6..12 bytes followed by Apply, DICT <=2 bytes, Type 2 charstrings <=3 bytes",
                "thorough": "larger byte bounds per decoder (see harness list)"},
     "outside": ["sfnt.Read / cff.Read / gtab.Read on whole adversarial files (component readers only; the gtab subtable readers are exercised under C07)", "inputs of realistic size (several MB), time/allocation linearity beyond the per-path allocation obligation (e.g. quadratic work from overlapping kern subtables)", "termination beyond the unwinding bound of 100000 iterations per loop"],
     "assumptions": ["counts inside the inputs are assumed small where a decoder materialises per-entry data (listed in each harness)", "allocation obligation: every make() on a path is at most 2^22 elements (1 MiB in the CFF Private DICT harness)"],
@@ -211,14 +219,15 @@ CHECKS["C08"] = {
         H("opentype/coverage", "c08.go", "VerifH_C08_coverage_bytes", ["accepted"], quick={"params": {"maxlen": 8}, "timeout": 280}, thorough={"params": {"maxlen": 16}, "timeout": 2400}),
         H("opentype/classdef", "c08.go", "VerifH_C08_classdef", ["read", "format1", "format2"], quick={"params": {"maxglyphs": 3}, "timeout": 280}, thorough={"params": {"maxglyphs": 5}, "timeout": 2400}),
         H("opentype/classdef", "c08.go", "VerifH_C08_classdef_bytes", ["accepted"], quick={"params": {"maxlen": 8}, "timeout": 280}, thorough={"params": {"maxlen": 16}, "timeout": 2400}),
+        H("opentype/gdef", "c08.go", "VerifH_C08_gdef", ["read"], quick={"timeout": 280, "shards": 2}),
         H("opentype/gtab", _G, "VerifH_C08_gsub", ["read"], quick={"timeout": 280}),
         H("opentype/gtab", _G, "VerifH_C08_gpos", ["read"], quick={"timeout": 280}),
         H("opentype/gtab", _G, "VerifH_C08_context", ["read"], quick={"params": {"ctxbig": 0}, "timeout": 280, "shards": 6}, thorough={"params": {"ctxbig": 1}, "timeout": 2400, "shards": 6}),
         H("opentype/gtab", _G, "VerifH_C08_lookuplist", ["read"], quick={"params": {"maxlookups": 2}, "timeout": 280}, thorough={"params": {"maxlookups": 3}, "timeout": 2400}),
     ],
-    "bounds": {"quick": "coverage tables of 0..4 symbolic glyph ids over the full 16-bit range, arbitrary coverage bytes (<=12); class definitions of 0..3 glyphs inside an 8-id window with symbolic classes, arbitrary bytes (<=12); GSUB 1.1/1.2/2.1/3.1/4.1, GPOS 1.1/1.2/2.1, (chained) sequence context formats 1, 2 and 3 (class based formats with nil / empty / one-rule rule sets per class) with 1..2 coverage glyphs, <=2 rules/ligatures/alternates, <=2 nested actions, all ids/values symbolic; lookup lists of 0..2 lookups with symbolic flags and mark filtering set",
+    "bounds": {"quick": "coverage tables of 0..4 symbolic glyph ids over the full 16-bit range, arbitrary coverage bytes (<=12); class definitions of 0..3 glyphs inside an 8-id window with symbolic classes, arbitrary bytes (<=12); GSUB 1.1/1.2/2.1/3.1/4.1, GPOS 1.1/1.2/2.1, (chained) sequence context formats 1, 2 and 3 (class based formats with nil / empty / one-rule rule sets per class) with 1..2 coverage glyphs, <=2 rules/ligatures/alternates, <=2 nested actions, all ids/values symbolic; lookup lists of 0..2 lookups with symbolic flags and mark filtering set; GDEF tables with 0..2 classed glyphs, a mark attachment class and 0..2 mark glyph sets of 0..2 symbolic glyphs",
                "thorough": "6 coverage glyphs, 5 classdef glyphs, 3 lookups"},
-    "outside": ["GPOS 2.2/3/4/5/6, GSUB 8.1 round trips", "extension subtables for lookup lists beyond 64 KiB", "gtab.Info with script/language/feature lists (x/text language tags)", "gdef.Table"],
+    "outside": ["GPOS 2.2/3/4/5/6, GSUB 8.1 round trips", "extension subtables for lookup lists beyond 64 KiB", "gtab.Info with script/language/feature lists (x/text language tags)"],
     "assumptions": ["coverage tables have indices 0..n-1 in increasing glyph order (value domain)", "class 0 entries are not stored (normal form)"],
 }
 
